@@ -1,3 +1,225 @@
+//! Path-level families: contains_point (C17), flatten (C16), PathBuilder / Path::transform /
+//! arc (C20).
+use crate::canvas::{parse_path, parse_transform};
+use crate::util::*;
+use raqote::*;
 use serde_json::{json, Value};
-pub fn run(sc: &Value) -> Value { json!({"id": sc["id"], "outcome": "unimplemented"}) }
-pub fn drive(_fam: &str, _seed: u64, _n: usize) -> Vec<Value> { Vec::new() }
+
+fn r1024(x: f32) -> Value {
+    let v = (x as f64 * 1024.0).round();
+    if v.is_finite() && v.abs() < 2.0e9 {
+        json!(v as i64)
+    } else {
+        json!("f")
+    }
+}
+
+/// Ops as tuples with coordinates in 1/1024 px (rounded; `exact` tells whether all were exact).
+pub fn ops_1024(p: &Path) -> (Value, bool) {
+    let mut exact = true;
+    let mut c = |x: f32| {
+        let v = x as f64 * 1024.0;
+        if v != v.round() {
+            exact = false;
+        }
+        r1024(x)
+    };
+    let mut out = Vec::new();
+    for op in &p.ops {
+        out.push(match *op {
+            PathOp::MoveTo(p) => json!(["M", c(p.x), c(p.y)]),
+            PathOp::LineTo(p) => json!(["L", c(p.x), c(p.y)]),
+            PathOp::QuadTo(a, b) => json!(["Q", c(a.x), c(a.y), c(b.x), c(b.y)]),
+            PathOp::CubicTo(a, b, d) => json!(["C", c(a.x), c(a.y), c(b.x), c(b.y), c(d.x), c(d.y)]),
+            PathOp::Close => json!(["Z"]),
+        });
+    }
+    (Value::Array(out), exact)
+}
+
+pub fn run(sc: &Value) -> Value {
+    match sc["fam"].as_str().unwrap() {
+        "contains" => run_contains(sc),
+        "flatten" => run_flatten(sc),
+        "builder" => run_builder(sc),
+        "arc" => run_arc(sc),
+        _ => unreachable!(),
+    }
+}
+
+fn path_of(sc: &Value) -> Path {
+    let den = den_of(sc, "den", 1.0);
+    let mut p = parse_path(&json!({"ops": sc["ops"]}), den);
+    p.winding = if sc["rule"].as_str() == Some("EvenOdd") { Winding::EvenOdd } else { Winding::NonZero };
+    p
+}
+
+fn run_contains(sc: &Value) -> Value {
+    let den = den_of(sc, "den", 1.0);
+    let p = path_of(sc);
+    // query points: every lattice point (in units of 1/den) of the bounding box grown by 2
+    let mut xs: Vec<i64> = Vec::new();
+    let mut ys: Vec<i64> = Vec::new();
+    for op in sc["ops"].as_array().unwrap() {
+        let a = op.as_array().unwrap();
+        let mut i = 1;
+        while i + 1 < a.len() {
+            xs.push(a[i].as_i64().unwrap());
+            ys.push(a[i + 1].as_i64().unwrap());
+            i += 2;
+        }
+    }
+    let (x0, x1, y0, y1) = if xs.is_empty() {
+        (0, 0, 0, 0)
+    } else {
+        (*xs.iter().min().unwrap(), *xs.iter().max().unwrap(), *ys.iter().min().unwrap(), *ys.iter().max().unwrap())
+    };
+    let mut queries = Vec::new();
+    let mut results = Vec::new();
+    let mut outcome = "ok";
+    let step = if sc.get("qstep").is_some() { int(&sc["qstep"]) as i64 } else { 1 };
+    let mut y = y0 - 2;
+    while y <= y1 + 2 {
+        let mut x = x0 - 2;
+        while x <= x1 + 2 {
+            let r = std::panic::catch_unwind(|| p.contains_point(0.1, x as f32 / den, y as f32 / den));
+            match r {
+                Ok(b) => {
+                    queries.push(json!([x, y]));
+                    results.push(json!(b));
+                }
+                Err(_) => outcome = "panic",
+            }
+            x += step;
+        }
+        y += step;
+    }
+    json!({"id": sc["id"], "fam": "contains", "den": sc["den"], "ops": sc["ops"], "rule": sc["rule"],
+           "outcome": outcome, "queries": queries, "results": results})
+}
+
+fn run_flatten(sc: &Value) -> Value {
+    let p = path_of(sc);
+    let tol = num(&sc["tol"]);
+    let r = std::panic::catch_unwind(|| p.flatten(tol));
+    match r {
+        Ok(f) => {
+            let (ops, _) = ops_1024(&f);
+            json!({"id": sc["id"], "fam": "flatten", "den": sc["den"], "ops": sc["ops"], "tol": sc["tol"],
+                   "outcome": "ok", "out": ops, "winding_kept": true})
+        }
+        Err(_) => json!({"id": sc["id"], "fam": "flatten", "den": sc["den"], "ops": sc["ops"], "tol": sc["tol"], "outcome": "panic", "out": []}),
+    }
+}
+
+/// PathBuilder call sequences and Path::transform.  Calls: ["move_to",x,y] ["line_to",x,y]
+/// ["quad_to",..] ["cubic_to",..] ["close"] ["rect",x,y,w,h]; optional transform.
+fn run_builder(sc: &Value) -> Value {
+    let den = den_of(sc, "den", 1.0);
+    let r = std::panic::catch_unwind(|| {
+        let mut pb = PathBuilder::new();
+        for c in sc["calls"].as_array().unwrap() {
+            let a = |i: usize| numd(&c[i], den);
+            match c[0].as_str().unwrap() {
+                "move_to" => pb.move_to(a(1), a(2)),
+                "line_to" => pb.line_to(a(1), a(2)),
+                "quad_to" => pb.quad_to(a(1), a(2), a(3), a(4)),
+                "cubic_to" => pb.cubic_to(a(1), a(2), a(3), a(4), a(5), a(6)),
+                "close" => pb.close(),
+                "rect" => pb.rect(a(1), a(2), a(3), a(4)),
+                k => panic!("bad builder call {}", k),
+            }
+        }
+        let mut p = pb.finish();
+        let w0 = p.winding;
+        if sc["set_evenodd"].as_bool().unwrap_or(false) {
+            p.winding = Winding::EvenOdd;
+        }
+        let before = ops_1024(&p);
+        let t = sc.get("transform").map(parse_transform);
+        let q = match &t {
+            Some(t) => p.clone().transform(t),
+            None => p.clone(),
+        };
+        (w0, before, ops_1024(&q), q.winding)
+    });
+    match r {
+        Ok((w0, (b, bexact), (a, aexact), w1)) => json!({
+            "id": sc["id"], "fam": "builder", "den": sc["den"], "calls": sc["calls"],
+            "transform": sc.get("transform").cloned().unwrap_or(json!({"m": [1, 0, 0, 1, 0, 0], "mden": 1})),
+            "set_evenodd": sc["set_evenodd"].as_bool().unwrap_or(false),
+            "outcome": "ok", "finish_winding": format!("{:?}", w0), "built": b, "built_exact": bexact,
+            "transformed": a, "transformed_exact": aexact, "transformed_winding": format!("{:?}", w1),
+        }),
+        Err(_) => json!({"id": sc["id"], "fam": "builder", "outcome": "panic"}),
+    }
+}
+
+/// PathBuilder::arc: the emitted ops, and every quadratic sampled at t = i/8 (harness f64,
+/// rounded to 1/1024 px) so that the specification can check radius, direction and extent.
+fn run_arc(sc: &Value) -> Value {
+    let x = num(&sc["x"]);
+    let y = num(&sc["y"]);
+    let r = num(&sc["r"]);
+    // angles are given as rational multiples of pi: [n, d] -> n * pi / d
+    let ang = |v: &Value| (num(&v[0]) as f64 * std::f64::consts::PI / num(&v[1]) as f64) as f32;
+    let start = ang(&sc["start"]);
+    let sweep = ang(&sc["sweep"]);
+    let res = std::panic::catch_unwind(|| {
+        let mut pb = PathBuilder::new();
+        if sc["pre_move"].as_bool().unwrap_or(true) {
+            pb.move_to(x - 2.0 * r - 3.0, y + 1.0);
+        }
+        pb.arc(x, y, r, start, sweep);
+        pb.finish()
+    });
+    let p = match res {
+        Ok(p) => p,
+        Err(_) => return json!({"id": sc["id"], "fam": "arc", "outcome": "panic"}),
+    };
+    let mut kinds = Vec::new();
+    let mut samples: Vec<Value> = Vec::new();
+    let mut cur: Option<Point> = None;
+    let mut first_line: Option<Point> = None;
+    for op in &p.ops {
+        match *op {
+            PathOp::MoveTo(q) => {
+                kinds.push("M");
+                cur = Some(q);
+            }
+            PathOp::LineTo(q) => {
+                kinds.push("L");
+                if first_line.is_none() {
+                    first_line = Some(q);
+                }
+                cur = Some(q);
+            }
+            PathOp::QuadTo(c, q) => {
+                kinds.push("Q");
+                let s = cur.unwrap_or(c);
+                for i in 0..=8 {
+                    let t = i as f64 / 8.0;
+                    let bx = (1.0 - t) * (1.0 - t) * s.x as f64 + 2.0 * t * (1.0 - t) * c.x as f64 + t * t * q.x as f64;
+                    let by = (1.0 - t) * (1.0 - t) * s.y as f64 + 2.0 * t * (1.0 - t) * c.y as f64 + t * t * q.y as f64;
+                    if i > 0 || samples.is_empty() {
+                        samples.push(json!([((bx - x as f64) * 1024.0).round() as i64, ((by - y as f64) * 1024.0).round() as i64]));
+                    }
+                }
+                cur = Some(q);
+            }
+            PathOp::CubicTo(_, _, q) => {
+                kinds.push("C");
+                cur = Some(q);
+            }
+            PathOp::Close => kinds.push("Z"),
+        }
+    }
+    let fl = first_line.map(|q| json!([((q.x as f64 - x as f64) * 1024.0).round() as i64, ((q.y as f64 - y as f64) * 1024.0).round() as i64])).unwrap_or(json!([]));
+    json!({"id": sc["id"], "fam": "arc", "outcome": "ok", "r1024": (r as f64 * 1024.0).round() as i64,
+           "start": sc["start"], "sweep": sc["sweep"], "pre_move": sc["pre_move"].as_bool().unwrap_or(true),
+           "kinds": kinds, "first_line": fl, "samples": samples})
+}
+
+pub fn drive(_fam: &str, _seed: u64, _n: usize) -> Vec<Value> {
+    Vec::new()
+}
